@@ -272,8 +272,7 @@ def histories(tier):
               continue
             out.append(dict(base, up_at=u + 0.0125))
       out.append({'stack': stack, 'endpoints': n, 'down_at': None, 'up_at': None, 'horizon': 40})
-      if tier == 'thorough':
-        for c in [x * 2.5 for x in range(1, 40)]:
+      for c in ([x * 2.5 for x in range(1, 40)] if tier == 'thorough' else [5.0, 7.5, 12.5, 15.0, 25.0, 27.5, 35.0, 52.5]):
           out.append({'stack': stack, 'endpoints': n, 'down_at': 2.25, 'mode': 'refuse', 'up_at': None, 'close_at': c + 0.0125, 'horizon': 140})
           out.append({'stack': stack, 'endpoints': n, 'down_at': 0, 'mode': 'stall', 'up_at': None, 'close_at': c + 0.0125, 'horizon': 140})
   return out
